@@ -1044,6 +1044,27 @@ class SSeq:
     def lower(self):
         return self.mapped(self._case_table(str.lower, _LOWER), str.lower)
 
+    def translate(self, table):
+        """str.translate with a 1:1 table (as built by str.maketrans(a, b) or a dict ord -> ord | 1-letter str)"""
+        def image(ch):
+            t = table.get(ord(ch), ch) if hasattr(table, "get") else table[ord(ch)]
+            if t is None:
+                raise Unsupported("str.translate deleting letters of a symbolic string")
+            if isinstance(t, int):
+                t = chr(t)
+            if not isinstance(t, str) or len(t) != 1:
+                raise Unsupported("str.translate mapping a letter to %r on a symbolic string" % (t,))
+            return t
+
+        codes = dict()
+        pool = set(range(len(ALPH))) | {c for c in (self.hint or ()) if c >= 1000}
+        for c in pool:
+            d = code_of(image(char_of(c)))
+            if d != c:
+                codes[c] = d
+        key = ("translate", frozenset(codes.items()))
+        return self.mapped(_CASE_TABLES.setdefault(key, codes), image)
+
     def complement(self):
         import Bio.Seq
 
